@@ -207,6 +207,8 @@ def run(ctx, out, tier):
         out.inst("C13.once", 0, 4)
     for nm in ctx.roles()["validators"]:
         shared.sh_visit(ctx, out, nm, rule="C13.visit")
+    from rules.C18 import check_fresh
+    check_fresh(ctx, out, "C13.fresh")
     return meta()
 
 
